@@ -70,6 +70,7 @@ def time_ordered_arguments(ctx, rule='C06-R1'):
             continue
         seen.add(key)
         ok, why = _time_ordered_source(vals)
+        ctx.sample({'calc_base_height argument (' + label.split(':')[0] + ')': T.show(vals, maxlen=300)})
         ctx.check(ok, rule, e.func.qname, e.node, e.loc(),
                   f'heights handed to calc_base_height ({label.split(":")[0]}) are {why}: with a look-back below 100 % '
                   'the "most recent" hits are then an arbitrary subset, and the base used to decide whether '
